@@ -40,6 +40,12 @@ pub fn show_fams(fams: &[Fam], canon: bool) -> String {
     fams.iter().map(|f| format!("{}^{}^{}^{}", hex_list(&[&f.name]), hex_list(&[&f.help]), f.ty,
         if f.samples.is_empty() { "-".to_string() } else { f.samples.iter().map(|s| format!("{}={}@{}", pairs_str(&s.labels), if canon { show_val(&s.val, true) } else { show_val_raw(&s.val) }, s.ts)).collect::<Vec<_>>().join(";") })).collect::<Vec<_>>().join("|")
 }
+/// families with NaNs identified but nothing else canonicalised (what a lossless decoder returns)
+pub fn show_fams_exact(fams: &[Fam]) -> String {
+    if fams.is_empty() { return "-".into(); }
+    fams.iter().map(|f| format!("{}^{}^{}^{}", hex_list(&[&f.name]), hex_list(&[&f.help]), f.ty,
+        if f.samples.is_empty() { "-".to_string() } else { f.samples.iter().map(|s| format!("{}={}@{}", pairs_str(&s.labels), show_val(&s.val, false), s.ts)).collect::<Vec<_>>().join(";") })).collect::<Vec<_>>().join("|")
+}
 pub fn parse_fams(s: &str) -> Vec<Fam> {
     if s == "-" { return vec![]; }
     s.split('|').map(|f| { let p: Vec<&str> = f.split('^').collect();
